@@ -3369,6 +3369,7 @@ func (t *transport) RoundTrip(hc *HostClient, req *Request, resp *Response) (ret
 				releaseRequestStream(r)
 			}
 			unread := fromConn && !er.eof.Load()
+			verifPoint("rt.stream.beforeRelease")
 			if closeConn || resp.ConnectionClose() || wErr != nil || unread {
 				hc.CloseConn(cc)
 			} else {
